@@ -230,9 +230,15 @@ func macroexpand(ctx context.Context, ast MalType, env EnvType) (MalType, error)
 			return nil, e
 		}
 		fn := mac.(MalFunc)
+		callCursor := ast.(List).Cursor
 		ast, e = Apply(ctx, fn, slc[1:])
 		if e != nil {
 			return nil, e
+		}
+		if expansion, ok := ast.(List); ok && expansion.Cursor == nil {
+			// code generated by a macro is reported at the macro call
+			expansion.Cursor = callCursor
+			ast = expansion
 		}
 	}
 	return ast, nil
